@@ -22,6 +22,11 @@ type C11Cfg struct {
 	K          int    `json:"k"`
 	J          int    `json:"j"`          // withhold: ordinal (in wire order) of the single lost message
 	CancelAt   int    `json:"cancelAt"`   // cancel: step at which node P's context is cancelled
+	// direct mode only (see directOpts): cancellation from within a party's own send / deadline during slow sends
+	CisParty   uint16 `json:"cisParty,omitempty"`
+	CisNth     int    `json:"cisNth,omitempty"`
+	SlowSendMs int    `json:"slowSendMs,omitempty"`
+	DirDeadMs  int    `json:"dirDeadMs,omitempty"`
 	Canonical  bool   `json:"canonical"`  // canonical (fair, oldest-first) schedule instead of the seeded one
 	Enum       bool   `json:"enum"`       // part of the exhaustive crash-point / withheld-message enumeration
 	DeadlineMs int    `json:"deadlineMs"` // context deadline of every call
@@ -123,6 +128,16 @@ func genC11(seed uint64, index int, tier string) C11Cfg {
 		c.Fault = "direct-cancel"
 		c.K = rx.Intn(3 * len(c.Sess.Deploy.IDs))
 		c.CancelAt = 5 + rx.Intn(120)
+		switch n := len(c.Sess.Deploy.IDs); rx.Intn(10) {
+		case 0, 1, 2, 3: // cancelled while running: from within some party's own i-th send
+			c.CisParty = c.Sess.Deploy.IDs[rx.Intn(n)]
+			c.CisNth = 1 + rx.Intn(n+2)
+			c.CancelAt = 0
+		case 4, 5: // a deadline that can expire while a caller is inside a (slow) send
+			c.SlowSendMs = 1 + rx.Intn(8)
+			c.DirDeadMs = 1 + rx.Intn(12*n)
+			c.CancelAt = 0
+		}
 	}
 	if rd := prng.Derive(seed, "real-init-delay"); c.Sess.Deploy.Backend != "scripted" && rd.Bool(0.3) {
 		c.Sess.Deploy.RealInitDelayMs = rd.Range(1, 40)
@@ -145,6 +160,9 @@ func genC11(seed uint64, index int, tier string) C11Cfg {
 		c.Sess.Deploy.IDs = ren(s.Deploy.IDs)
 		c.Sess.Signers = ren(s.Signers)
 		c.P = m[c.P]
+		if c.CisParty != 0 {
+			c.CisParty = m[c.CisParty]
+		}
 	}
 	return c
 }
@@ -173,7 +191,7 @@ func runC11Direct(t *testing.T, spec RunSpec, cfg C11Cfg, res *RunResult) {
 		if tt < 2 {
 			tt = 2
 		}
-		_, calls, ss := runDirectDKG(spec, w, sc.Deploy.Backend, sc.Deploy.IDs, tt, 2, sc.Strategy, lg, directOpts{Silent: cfg.P, SilentAfter: cfg.K, CancelAtStep: cfg.CancelAt})
+		_, calls, ss := runDirectDKG(spec, w, sc.Deploy.Backend, sc.Deploy.IDs, tt, 2, sc.Strategy, lg, directOpts{Silent: cfg.P, SilentAfter: cfg.K, CancelAtStep: cfg.CancelAt, CisParty: cfg.CisParty, CisNth: cfg.CisNth, SlowSendMs: cfg.SlowSendMs, DeadlineMs: cfg.DirDeadMs})
 		res.Violations = append(res.Violations, panicViolations(w, "C11/panic")...)
 		if len(res.Violations) == 0 {
 			for _, c := range calls {
@@ -183,7 +201,7 @@ func runC11Direct(t *testing.T, spec RunSpec, cfg C11Cfg, res *RunResult) {
 				}
 			}
 		}
-		res.Nontrivial = w.Faults["cancel"] > 0
+		res.Nontrivial = w.Faults["cancel"]+w.Faults["cancel-in-send"]+w.Faults["deadline"] > 0
 		fillResult(res, w, ss)
 	})
 }
